@@ -55,8 +55,71 @@ def make_points():
     return build(CollinearPoint, 1), build(CollinearPoint, -1), build(TriangularPoint, 1), (Cf, Cfi), (gamma, mu, aa)
 
 
+def _replay_general():
+    """General confirmation on the compiled build: a generic polynomial with complex coefficients pushed through every real<->complex
+    registry edge and the physical<->modal edge at L1 and L2: round trips return the coefficients, and each converted polynomial
+    agrees point-wise with the corresponding coordinate map."""
+    return '''
+import warnings; warnings.filterwarnings("ignore")
+from numba.typed import List
+from hiten.algorithms.hamiltonian.transforms import _solve_complex, _solve_real, _coordrealmodal2local, _coordlocal2realmodal
+from hiten.algorithms.polynomial.base import _init_index_tables
+from hiten.algorithms.polynomial.operations import _polynomial_evaluate
+from hiten.system import System
+from hiten.system.hamiltonian import Hamiltonian
+import hiten.algorithms.hamiltonian.wrappers  # registers the conversion edges
+DEG = 4
+psi, clmo = _init_index_tables(DEG); rng = np.random.default_rng(18)
+def rnd(cplx=True):
+    out = List()
+    for d in range(DEG + 1):
+        c = rng.uniform(-1, 1, int(psi[6, d])).astype(np.complex128)
+        if cplx: c = c + 1j * rng.uniform(-1, 1, int(psi[6, d]))
+        out.append(c)
+    return out
+def cp(p):
+    out = List()
+    for c in p: out.append(np.array(c, dtype=np.complex128))
+    return out
+def diff(p, q): return max(float(np.max(np.abs(np.asarray(a) - np.asarray(b)))) for a, b in zip(p, q))
+def ev(p, z): return complex(_polynomial_evaluate(p, np.asarray(z, dtype=np.complex128), clmo))
+bad = {}
+sysm = System.from_bodies("earth", "moon")
+for k in (1, 2):
+    pt = sysm.get_libration_point(k); P = rnd()
+    for r, c in (("real_modal", "complex_modal"), ("real_partial_normal", "complex_partial_normal"), ("center_manifold_real", "center_manifold_complex"), ("real_full_normal", "complex_full_normal")):
+        for a, b in ((r, c), (c, r)):
+            tag = "L%d_%s_to_%s" % (k, a, b)
+            try:
+                h = Hamiltonian(cp(P), DEG, 3, name=a); mid = h.to_state(b, point=pt); back = mid.to_state(a, point=pt)
+            except Exception as e:
+                bad[tag] = "conversion raised %s" % repr(e)[:80]; continue
+            d = diff(back.poly_H, P)
+            if d > 1e-9: bad[tag + "_roundtrip"] = "coefficients differ by %.2e after converting there and back" % d; continue
+            for _ in range(3):
+                z = rng.uniform(-0.6, 0.6, 6) + 1j * rng.uniform(-0.6, 0.6, 6)
+                # value at a point of the target form = value at the mapped point of the source form
+                src_pt = _solve_real(z, mix_pairs=(1, 2)) if b == c else _solve_complex(z, mix_pairs=(1, 2))
+                va, vb = ev(h.poly_H, src_pt), ev(mid.poly_H, z)
+                if abs(va - vb) > 1e-9 * max(1.0, abs(va)): bad[tag + "_pointwise"] = "H_target(z) = %s but H_source(map z) = %s" % (vb, va); break
+    # physical <-> real_modal against the linear coordinate change
+    Pr = rnd(cplx=False)
+    try:
+        hp = Hamiltonian(cp(Pr), DEG, 3, name="physical"); hm = hp.to_state("real_modal", point=pt)
+        for _ in range(3):
+            x = rng.uniform(-0.5, 0.5, 6)
+            va, vb = ev(hp.poly_H, _coordrealmodal2local(pt, x)), ev(hm.poly_H, x)
+            if abs(va - vb) > 1e-8 * max(1.0, abs(va)): bad["L%d_physical_to_real_modal_pointwise" % k] = "H_modal(x) = %s but H_physical(C x) = %s" % (vb, va); break
+            if float(np.max(np.abs(np.asarray(_coordlocal2realmodal(pt, _coordrealmodal2local(pt, x))) - x))) > 1e-10: bad["L%d_modal_local_roundtrip" % k] = "C_inv C x != x"; break
+    except Exception as e:
+        bad["L%d_physical_to_real_modal" % k] = "raised %s" % repr(e)[:80]
+_verdict(bool(bad), **{k_: bad[k_] for k_ in list(bad)[:8]})
+'''
+
+
 def main():
     chk = Check(PID)
+    chk.default_replay = _replay_general
     snp.EXACT_SQRT[0] = True
     import hiten.algorithms.hamiltonian.wrappers as wr
     import hiten.algorithms.hamiltonian.transforms as tf
